@@ -226,8 +226,8 @@ def insertConstraintTree (toTree : List (Cons K P) → Option (CTree (Cons K P))
 
 /-! ### `make_det` -/
 
-def makeDetLoop (a : Automaton K P) (failTransitions : List Nat) :
-    List Nat → R (Automaton K P)
+def makeDetLoop (a : Automaton K P) (failTransitions : List Nat)
+    (failMatches : List (Nat × List K)) : List Nat → R (Automaton K P)
   | [] => .ok a
   | t :: ts =>
     match a.splitTarget t with
@@ -235,11 +235,15 @@ def makeDetLoop (a : Automaton K P) (failTransitions : List Nat) :
     | .ok (a, target) =>
       match a.appendCopies target failTransitions with
       | .error e => .error e
-      | .ok a => makeDetLoop a failTransitions ts
+      | .ok a =>
+        match a.addMatches target failMatches with
+        | .error e => .error e
+        | .ok a => makeDetLoop a failTransitions failMatches ts
 
-/-- `make_det(state)` (pinned code: the fallback state's transitions, not its accepted patterns,
-are copied onto every constraint child — finding F4). -/
-def makeDet (a : Automaton K P) (s : Nat) : R (Automaton K P) :=
+/-- `make_det(state)` (after the F4 repair: besides the fallback state's transitions, the
+patterns it accepts are copied onto every constraint child; `keepFailMatches = false` is the
+pinned code, kept to document the finding). -/
+def makeDetWith (keepFailMatches : Bool) (a : Automaton K P) (s : Nat) : R (Automaton K P) :=
   match a.setDeterministic s with
   | .error e => .error e
   | .ok (a, wasDet) =>
@@ -249,10 +253,14 @@ def makeDet (a : Automaton K P) (s : Nat) : R (Automaton K P) :=
       | .error e => .error e
       | .ok none => .ok a
       | .ok (some failState) =>
-        match a.allTransitions failState, a.corderOf s with
-        | .ok failTs, .ok cts => a.makeDetLoop failTs cts
-        | .error e, _ => .error e
-        | _, .error e => .error e
+        match a.allTransitions failState, a.corderOf s, a.state failState with
+        | .ok failTs, .ok cts, .ok fw =>
+          a.makeDetLoop failTs (if keepFailMatches then fw.matches_ else []) cts
+        | .error e, _, _ => .error e
+        | _, .error e, _ => .error e
+        | _, _, .error e => .error e
+
+def makeDet (a : Automaton K P) (s : Nat) : R (Automaton K P) := makeDetWith true a s
 
 /-! ### `try_merge_new_nodes` -/
 
